@@ -13,7 +13,7 @@ from ..core import rule, AnalysisError
 from ..engine import rx
 from ..engine.facts import dotted, const, src, walk_func, str_value
 from ..engine import pattern as P
-from .common import calls, pn, return_leaves, guards_of, arms, access_paths, resolve, resolve_deep
+from .common import calls, pn, return_leaves, guards_of, arms, access_paths, resolve, resolve_deep, contains
 
 MARKUP = set("&<>\"'")
 
@@ -153,7 +153,20 @@ def entity_escaper(ctx):
     ee = db.func("filters.XMLEntityEscaper.escape_entities")
     ctx.check("translate(self.codepoint2entity)" in src(ee), "entity.translate", db.where(ee), "escape_entities does not translate through codepoint2entity", "str(text).translate(codepoint2entity)")
     init = db.func("filters.XMLEntityEscaper.__init__")
-    ctx.check("'&%s;' % n" in src(init) and "codepoint2name.items()" in src(init), "entity.table", db.where(init), "codepoint2entity is not built as &name; from codepoint2name", "&name; for every named code point")
+    # codepoint2entity[c] = '&<name>;' for every (c, name) of the table given: a comprehension or a loop over <param>.items()
+    okt = False
+    its = [n_ for n_ in ast.walk(init) if isinstance(n_, (ast.comprehension, ast.For)) and P.matches(n_.iter, "%s.items()" % pn(init, 1)) and isinstance(n_.target, ast.Tuple) and len(n_.target.elts) == 2]
+    for it_ in its:
+        kv, nv = src(it_.target.elts[0]), src(it_.target.elts[1])
+        fmt = [b_ for b_ in ast.walk(init) if isinstance(b_, ast.BinOp) and isinstance(b_.op, ast.Mod) and const(b_.left) == "&%s;" and src(b_.right) == nv]
+        if not fmt:
+            continue
+        for n_ in ast.walk(init):
+            if isinstance(n_, ast.DictComp) and it_ in n_.generators and src(n_.key) == kv and any(f_ is n_.value or contains(n_.value, f_) for f_ in fmt):
+                okt = True
+            if isinstance(n_, ast.Assign) and isinstance(n_.targets[0], ast.Subscript) and src(n_.targets[0].slice) == kv and any(f_ is n_.value or contains(n_.value, f_) for f_ in fmt) and isinstance(it_, ast.For):
+                okt = True
+    ctx.check(okt, "entity.table", db.where(init), "codepoint2entity is not built as &name; from codepoint2name", "&name; for every named code point")
     inst = db.module_assign("filters", "_html_entities_escaper")
     ctx.check(src(inst) == "XMLEntityEscaper(codepoint2name, name2codepoint)", "entity.instance", db.where(inst), "escaper built as %s" % src(inst), "built from html.entities tables")
 
